@@ -10,6 +10,8 @@
       node    (f SRC node*) | (s NAME node*) | (o node*)          -- ast.Inspect order
       SRC     t (__typename) | u (no definition) | a (argument error) | d (no cost function)
               | (c R M C)       R, M: integer | ctx (the context value);  C: keep | integer
+              | (conn F L)      defaultConnectionCost; F, L: absent | null | integer (ctx.Arguments["first"|"last"])
+              | edges           the connection's `edges` field
       VERDICT accepted | toohigh | (exceeds cost max) | (secondary msg) | (panic what) | oof
       ACTUAL  unset | integer                              REF     none | natural (Spec.refCost)
   The cost context type is `Int`; the background context is 0.
@@ -31,8 +33,19 @@ def parseCtx (x : Sexp) : Option (Option Int) :=
   | Sexp.atom "keep" => some none
   | _ => (x.int?).map some
 
+def parseArgVal (x : Sexp) : Option ArgVal :=
+  match x with
+  | Sexp.atom "absent" => some .absent
+  | Sexp.atom "null" => some .null
+  | _ => (x.int?).map .int
+
 def parseSrc (x : Sexp) : Option (CostSrc Int) :=
   match x with
+  | Sexp.atom "edges" => some (.fn edgesCost)
+  | Sexp.list [Sexp.atom "conn", f, l] =>
+    match parseArgVal f, parseArgVal l with
+    | some f, some l => some (.fn (connectionCost f l))
+    | _, _ => none
   | Sexp.atom "t" => some .typename
   | Sexp.atom "u" => some .unknown
   | Sexp.atom "a" => some .argError
